@@ -319,6 +319,9 @@ func (w *World) nextAction() (simrt.Action, bool) {
 			if w.Rng.Chance(1, 3) {
 				return simrt.Action{K: "byz", N: id, S: "propose-bad", A: h, B: r, C: int64(w.Rng.Intn(len(badBlockKinds)))}, true
 			}
+			if r > 0 && w.Rng.Chance(1, 2) {
+				return simrt.Action{K: "byz", N: id, S: "propose", A: h, B: r, C: int64(w.Rng.Intn(4)), I: fmt.Sprintf("pol%d", 1+w.Rng.Intn(int(min(r, 3))))}, true
+			}
 		}
 		if kind != "propose" && w.Rng.Chance(1, 8) {
 			return simrt.Action{K: "byz", N: id, S: kind, A: h, B: r, C: int64(w.Rng.Intn(4)), I: "misindexed"}, true
